@@ -100,8 +100,9 @@ def same(val, ref, x, tag):
 class Rec3(Invariant):
     """loop `for i in range(lo, n+1)` carrying (cur, prev) = (F(i-1), F(i-2)); other modified names are dead at the
     loop head and havocked."""
-    def __init__(self, F, params, xname, cur, prev, dead=(), shift=0):
+    def __init__(self, F, params, xname, cur, prev, dead=(), shift=0, also_cur=()):
         self.F, self.params, self.xname, self.cur, self.prev, self.dead, self.shift = F, params, xname, cur, prev, dead, shift
+        self.also_cur = also_cur      # names that equal `cur` once at least one iteration has run (unbound before)
 
     def _vals(self, env, i):
         ps = self.params(env)
@@ -113,9 +114,14 @@ class Rec3(Invariant):
         st = {self.cur: c, self.prev: p}
         for d in self.dead:
             st[d] = env.get(d)      # dead at the loop head (re-assigned before use in the body)
+        for d in self.also_cur:
+            st[d] = c
         return st
 
     def holds(self, env, i):
         c, p, x = self._vals(env, i)
         yield 'current', same(env[self.cur], c, x, 'cur')
         yield 'previous', same(env[self.prev], p, x, 'prev')
+        for d in self.also_cur:
+            if d in env:
+                yield 'alias-' + d, same(env[d], c, x, d)
